@@ -565,8 +565,36 @@ package dmap
 //@   flag clock
 //@   modifies EvictedTotal.counter
 
+// C07: a read-modify-write is serialised by a lock that is local to a member, so it is atomic across clients only
+// if every caller runs it on the owner of the key's partition (the owner of a partition is treated as fixed during
+// one call: stable membership). ownsKeyOf: this member is that owner.
+//@ pred (dm *DMap) ownsKeyOf(e *env) = uf(owner_namehash, Int, dm.s.primary.m[uf(hkey, Int, e.dmap, e.key) % dm.s.primary.count]) == dm.s.rt.this.NameHash
+
+//@ func (dm *DMap) atomicOwner(e *env) (discovery.Member, bool)
+//@   props C07
+//@   flag termination
+//@   requires #env: dm != nil && dm.s != nil && dm.s.rt != nil && e != nil && dm.s.parts() && dm.s.primary.count > 0
+//@   ensures #local_iff_this_member_owns_the_key [C07]: result.1 == dm.ownsKeyOf(e)
+//@   modifies nothing
+
+//@ func (dm *DMap) getPut(e *env) (storage.Entry, error)
+//@   props C07
+//@   flag wired 3
+//@   flag skip nil
+//@   requires #routing [C07]: dm != nil && dm.s != nil && dm.s.rt != nil && e != nil && dm.s.parts() && dm.s.primary.count > 0
+//@   atcall locker\.Locker\)\.Lock$ requires #read_modify_write_runs_on_the_partition_owner [C07]: dm.ownsKeyOf(e)
+
+//@ func (dm *DMap) atomicIncrByFloat(e *env, delta float64) (float64, error)
+//@   props C07
+//@   flag wired 3
+//@   flag skip nil
+//@   requires #routing [C07]: dm != nil && dm.s != nil && dm.s.rt != nil && e != nil && dm.s.parts() && dm.s.primary.count > 0
+//@   atcall locker\.Locker\)\.Lock$ requires #read_modify_write_runs_on_the_partition_owner [C07]: dm.ownsKeyOf(e)
+
 //@ func (dm *DMap) atomicIncrDecr(cmd string, e *env, delta int) (int, error)
-//@   props C09
+//@   props C09 C07
+//@   requires #routing [C07]: dm != nil && dm.s != nil && dm.s.rt != nil && dm.s.parts() && dm.s.primary.count > 0
+//@   atcall locker\.Locker\)\.Lock$ requires #read_modify_write_runs_on_the_partition_owner [C07]: dm.ownsKeyOf(e)
 //@   flag clock
 //@   flag wired 3
 //@   flag skip nil
